@@ -40,7 +40,7 @@ func TestNodeCachePins(t *testing.T) {
 		var order []common.Hash // snapshot roots, oldest first (distinct)
 		var latest common.Hash
 		var hist []string
-		doublePinned, releasedWhileDouble := false, false
+		doublePinned, releasedWhileDouble, capped := false, false, false
 
 		verify := func(when string) bool {
 			for _, r := range order {
@@ -69,7 +69,7 @@ func TestNodeCachePins(t *testing.T) {
 
 		n := rapid.IntRange(2, 40).Draw(t, "nops")
 		for i := 0; i < n; i++ {
-			op := rapid.SampledFrom([]string{"upd", "upd", "del", "snapshot", "snapshot", "snapshot", "release", "release", "flush"}).Draw(t, "op")
+			op := rapid.SampledFrom([]string{"upd", "upd", "del", "snapshot", "snapshot", "snapshot", "release", "release", "flush", "cap"}).Draw(t, "op")
 			switch op {
 			case "upd":
 				k, v := genKey(t, "k"), genVal(t, "v")
@@ -126,6 +126,16 @@ func TestNodeCachePins(t *testing.T) {
 				tdb.Dereference(r)
 				pins[r]--
 				hist = append(hist, fmt.Sprintf("release(%x)->pins %d", r[:4], pins[r]))
+			case "cap":
+				// the size-driven flush: the oldest cached nodes go to disk until the cache is below the limit; whatever is
+				// pinned stays readable (from the cache and the disk together)
+				lim := common.StorageSize(rapid.SampledFrom([]int{0, 64, 256, 1024, 4096, 1 << 20}).Draw(t, "caplimit"))
+				if err := tdb.Cap(lim); err != nil {
+					vstat.Violation(t, P, "commit-error", "db.Cap error %v", err)
+					return
+				}
+				capped = true
+				hist = append(hist, fmt.Sprintf("cap(%d)", int(lim)))
 			case "flush":
 				var cands []common.Hash
 				for _, r := range order {
@@ -144,7 +154,7 @@ func TestNodeCachePins(t *testing.T) {
 				flushed[r] = true
 				hist = append(hist, fmt.Sprintf("flush(%x)", r[:4]))
 			}
-			if op == "release" || op == "flush" || op == "snapshot" {
+			if op == "release" || op == "flush" || op == "snapshot" || op == "cap" {
 				if !verify("after " + hist[len(hist)-1]) {
 					return
 				}
@@ -155,6 +165,9 @@ func TestNodeCachePins(t *testing.T) {
 		}
 		if doublePinned {
 			vstat.Label("root_pinned_twice")
+		}
+		if capped && len(order) >= 2 {
+			vstat.Label("node_cache_capped")
 		}
 		if releasedWhileDouble {
 			vstat.Label("root_released_once_while_pinned_twice")
